@@ -94,11 +94,31 @@ func NewPreciseVector(x, y, z float64) PreciseVector {
 
 // Vector returns this precise vector converted to a Vector.
 func (v PreciseVector) Vector() Vector {
-	// The accuracy flag is ignored on these conversions back to float64.
-	x, _ := v.X.Float64()
-	y, _ := v.Y.Float64()
-	z, _ := v.Z.Float64()
-	return Vector{x, y, z}.Normalize()
+	// Scale by a power of two so that the largest component has exponent 0
+	// before rounding to float64; otherwise small vectors underflow (or lose
+	// precision as subnormals) and large ones overflow. Scaling by a power of
+	// two does not change the direction.
+	exp := 0
+	first := true
+	for _, c := range []*big.Float{v.X, v.Y, v.Z} {
+		if c.Sign() == 0 {
+			continue
+		}
+		if e := c.MantExp(nil); first || e > exp {
+			exp, first = e, false
+		}
+	}
+	conv := func(c *big.Float) float64 {
+		if c.Sign() == 0 {
+			return 0
+		}
+		m := new(big.Float)
+		e := c.MantExp(m)
+		// The accuracy flag is ignored on these conversions back to float64.
+		f, _ := new(big.Float).SetMantExp(m, e-exp).Float64()
+		return f
+	}
+	return Vector{conv(v.X), conv(v.Y), conv(v.Z)}.Normalize()
 }
 
 // Equal reports whether v and ov are equal.
